@@ -533,6 +533,25 @@ def _exc_family(P, module, name):
     return False
 
 
+def _raise_owner(m, fi):
+    """The function a raise site belongs to for the purpose of ALLOW_RAISE: closures belong to the function that defines them, and a
+    private helper belongs to the one function that uses it."""
+    q = fi.qualname.split('.<locals>.')[0]
+    name = q.split('.')[-1]
+    if name.startswith('_') and (q, ) and not any(k[0] == q for k in ALLOW_RAISE):
+        users = set()
+        for other in m.functions.values():
+            oq = other.qualname.split('.<locals>.')[0]
+            if oq == q:
+                continue
+            for n in ast.walk(other.node):
+                if (isinstance(n, ast.Attribute) and n.attr == name) or (isinstance(n, ast.Name) and n.id == name):
+                    users.add(oq)
+        if len(users) == 1:
+            return users.pop()
+    return q
+
+
 def rule_raise(P) -> RuleResult:
     res = RuleResult('R-RAISE')
     mods = [P.module(CO), P.module('beanquery.parser')]
@@ -550,8 +569,8 @@ def rule_raise(P) -> RuleResult:
                 construct = f'{fi.fq}:raise {name}'
                 if _exc_family(P, m, name):
                     res.ok({'site': fi.fq, 'raises': name})
-                elif (fi.qualname, name) in ALLOW_RAISE:
-                    res.ok({'site': fi.fq, 'raises': name, 'allowed': ALLOW_RAISE[(fi.qualname, name)]})
+                elif (_raise_owner(m, fi), name) in ALLOW_RAISE:
+                    res.ok({'site': fi.fq, 'raises': name, 'allowed': ALLOW_RAISE[(_raise_owner(m, fi), name)]})
                 elif name == 'TypeError' and _param_kind_guard(fi, node):
                     res.ok({'site': fi.fq, 'raises': name, 'allowed': PARAM_KIND_WHY})
                 else:
